@@ -1,3 +1,4 @@
 import HvProps.C05
 import HvProps.C08
 import HvProps.C04
+import HvProps.C06
